@@ -4,6 +4,7 @@
 # This module is part of Mako and is released under
 # the MIT License: http://www.opensource.org/licenses/mit-license.php
 from argparse import ArgumentParser
+from os.path import basename
 from os.path import dirname
 from os.path import isfile
 import sys
@@ -74,11 +75,19 @@ def cmdline(argv=None):
             raise SystemExit("error: can't find %s" % filename)
         lookup_dirs = options.template_dir or [dirname(filename)]
         lookup = TemplateLookup(lookup_dirs)
+        # without --template-dir the lookup is rooted at the file's own
+        # directory: name the template relative to that root, so that the
+        # relative references it makes (include, inherit, namespace) are
+        # resolved there and not against the path of the file
+        uri_kw = {}
+        if not options.template_dir:
+            uri_kw["uri"] = "/" + basename(filename)
         try:
             template = Template(
                 filename=filename,
                 lookup=lookup,
                 output_encoding=output_encoding,
+                **uri_kw,
             )
         except:
             _exit()
